@@ -88,6 +88,9 @@ func commandPattern(n *Node) string {
 	for _, p := range n.Params {
 		fmt.Fprintf(&b, " -p %s={p:%s}", p.Name, p.Name)
 	}
+	for _, k := range n.TagArgs {
+		fmt.Fprintf(&b, " -p tg_%s={t:%s}", strings.ReplaceAll(k, ".", "_"), k)
+	}
 	for _, o := range n.Outs {
 		if o.Stream {
 			fmt.Fprintf(&b, " -o {os:%s}", o.Name)
